@@ -177,6 +177,7 @@ type Run struct {
 	HdrTargets []*metadata.MD
 	TrlTargets []*metadata.MD
 	PeerTarget *peer.Peer
+	OutMD      metadata.MD // the very map given to metadata.NewOutgoingContext
 	Stream     grpc.ClientStream
 	UnaryResp  *tpb.Message
 	NewStreamErr error
@@ -562,6 +563,7 @@ func (r *Run) Exec(cc grpc.ClientConnInterface, parent context.Context, watchdog
 		md[k] = append([]string(nil), v...)
 	}
 	md.Set(runKey, r.ID)
+	r.OutMD = md
 	ctx, cancel := context.WithCancel(metadata.NewOutgoingContext(parent, md))
 	r.Ctx, r.Cancel = ctx, cancel
 
